@@ -381,6 +381,8 @@ def generate(ctx, n_graphs, pts, max_e=6, max_loops=3, kinds=("uniform", "unifor
              routings_per_graph=1, names=None, mass_mode=None, special=(), ext_modes=None, scales=(1,), decouple=0.0, dims=None, plane=None):
     """returns list of dict(case, routing, table, xs, req, kind); `special` = kinds of make_special_case to append"""
     purity_audit(ctx)
+    global _CTX
+    _CTX = ctx
     rng = ctx.rng
     cases = []
     while len(cases) < n_graphs:
@@ -444,6 +446,8 @@ def big_dimension_cases(rng):
 
 def samples_for_cases(ctx, cases, pts, kinds=("uniform",)):
     """samples for given (already constructed) graph cases; cases the implementation rejects are dropped silently"""
+    global _CTX
+    _CTX = ctx
     rng = ctx.rng
     out = []
     for c, b in zip(cases, build_tables(cases)):
@@ -459,10 +463,21 @@ def samples_for_cases(ctx, cases, pts, kinds=("uniform",)):
     return out
 
 
+_CTX = None      # the check context of the last generate()/samples_for_cases() call: lets run() report refused builds
+
+
 def run(samples):
     res = run_harness([s["req"] for s in samples])
+    seen = set()
     for s, r in zip(samples, res):
         s["impl"] = r
+        # the table of this graph was built (hook path) and the signature is a cycle basis of it: the public path must build it too
+        if r.get("status") == "builderr" and _CTX is not None and s.get("case", {}).get("accepted", True):
+            key = (id(s["case"]), str(s["req"].get("sig")))
+            if key not in seen:
+                seen.add(key)
+                _CTX.violation("build_sampler refuses an accepted graph with a valid loop signature (cycle basis): " + str(r.get("msg"))[:160],
+                               small_req(s), expected="a sampler", observed=str(r.get("msg"))[:200])
     return samples
 
 
